@@ -38,16 +38,22 @@ structure Agree (s : State) : Prop where
 def eventRec (e : Event) (now : Nat) : Rec :=
   { key := e.key, policy := e.policy, node := "", uid := "", reserved := true, ts := now }
 
+/-- a delete event is current when the store holds nothing for the address — or, if the cache holds a record which is
+    not a reservation (the event is then ignored), when that record is what the store holds -/
+def unassignCurrent : Option Rec → Option Rec → Prop
+  | some r, st => if r.reserved = true then st = none else optEq (some r) st
+  | none, st => st = none
+
 /-- the watch event about to be delivered (head of the queue) still describes the store — nobody deleted / replaced /
     re-used the object it announces meanwhile — or further events for the address are still on their way.
     add event: the store holds what the cache holds, resp. (address still free) the announced reservation;
-    delete event: the store holds nothing for the address. -/
+    delete event: see `unassignCurrent`. -/
 def currentOf (s : State) : List Event → Prop
   | [] => True
   | e :: rest =>
     (∃ e' ∈ rest, e'.ip = e.ip) ∨
     (if e.assign = true then optEq (some ((s.alloc.get e.ip).getD (eventRec e s.clock))) (s.store.get e.ip)
-     else s.store.get e.ip = none)
+     else unassignCurrent (s.alloc.get e.ip) (s.store.get e.ip))
 
 def Current (s : State) : Prop := currentOf s s.pending
 
@@ -60,31 +66,71 @@ instance optEq.dec : (a b : Option Rec) → Decidable (optEq a b)
   | none, some _ => isFalse (fun h => h)
   | some _, none => isFalse (fun h => h)
 
+instance unassignCurrent.dec : (a st : Option Rec) → Decidable (unassignCurrent a st)
+  | some r, st => inferInstanceAs (Decidable (if r.reserved = true then st = none else optEq (some r) st))
+  | none, st => inferInstanceAs (Decidable (st = none))
+
 instance currentOf.dec (s : State) : (l : List Event) → Decidable (currentOf s l)
   | [] => isTrue trivial
   | e :: rest =>
     inferInstanceAs (Decidable ((∃ e' ∈ rest, e'.ip = e.ip) ∨
       (if e.assign = true then optEq (some ((s.alloc.get e.ip).getD (eventRec e s.clock))) (s.store.get e.ip)
-       else s.store.get e.ip = none)))
+       else unassignCurrent (s.alloc.get e.ip) (s.store.get e.ip))))
 
 instance (s : State) : Decidable (Current s) := currentOf.dec s s.pending
 
 /-- no free address has a stored object (true whenever no admin event is pending, see `freeUnstored_of_agree`) -/
 def FreeUnstored (s : State) : Prop := ∀ ip ∈ s.free, s.store.get ip = none
 
-/-- side conditions under which a move preserves `Agree`; `True` for every mutator except
-    * `deliver`: the event must be `Current` (known finding: a stale delete event frees a re-allocated address),
-    * multi-range allocation: no fault may hit the rollback deletes, whose errors the code ignores — guaranteed by
-      "no fault at all", or by "a single fault and no create can conflict" (known finding otherwise). -/
+/-- side condition of the ONE-STEP theorem `agree_step` (which only assumes `Agree`, an invariant that says nothing about
+    addresses with pending events): `True` for every move except `deliver`, whose event must be `Current`.  The
+    history-level theorems do not need it: the stronger invariant `Inv` implies `Current` wherever it matters. -/
 def StepOK (s : State) : Op → Prop
   | .deliver => Current s
-  | .allocRanges _ _ _ _ _ pl => pl.fails = [] ∨ (pl.fails.length ≤ 1 ∧ FreeUnstored s)
   | _ => True
 
-/-- states reachable by admissible moves satisfying the side conditions -/
+/-! ### the history-level invariant: what is known about addresses WITH pending watch events -/
+
+/-- the undelivered watch events of one address, oldest first -/
+def pend (s : State) (ip : IP) : List Event := s.pending.filter (fun e => e.ip == ip)
+
+/-- the youngest pending event is a delete event -/
+def lastIsU (l : List Event) : Bool := match l.getLast? with | some e => !e.assign | none => false
+
+/-- youngest pending event = delete: the labelled object is gone; the cache holds the (stale) reservation or nothing
+    while the store holds nothing, or both already hold the same ordinary record (the address was re-used) -/
+def SU (a st : Option Rec) : Prop :=
+  (st = none ∧ ∀ r, a = some r → r.reserved = true) ∨ (optEq a st ∧ ∀ r, a = some r → r.reserved = false)
+
+/-- the invariant for one address: `c` = configured, `l` = its pending events, `a` / `st` = cache / store entry.
+    * nothing pending: cache = store (if configured);
+    * youngest event is a delete: no labelled object is stored; `SU` (if configured);
+    * otherwise all pending events are one and the same add event: the labelled object is stored, and the cache holds
+      nothing yet (the object is exactly what the event announces) or already the same as the store (after a reload). -/
+def PAt (c : Bool) (l : List Event) (a st : Option Rec) : Prop :=
+  if l = [] then (c = true → optEq a st)
+  else if lastIsU l = true then (∀ r0, st = some r0 → r0.reserved = false) ∧ (c = true → SU a st)
+  else ∃ e r0, (∀ x ∈ l, x = e) ∧ st = some r0 ∧ r0.reserved = true ∧
+        (c = true → (a = none ∧ recEq (eventRec e 0) r0) ∨ optEq a st)
+
+def PInv (s : State) : Prop := ∀ ip, PAt (configured s.pools ip) (pend s ip) (s.alloc.get ip) (s.store.get ip)
+
+/-- the inductive invariant behind C05: `MemOK` and `PInv`; it implies `Agree` (lemma `agree_of_inv`) -/
+structure Inv (s : State) : Prop where
+  mem : MemOK s
+  pinv : PInv s
+
+/-- ENVIRONMENT assumption (about the administrator, not about galaxy): a reservation for an address is not created
+    while a watch event for that address is still on its way (create / delete / re-create faster than the watch
+    latency).  Without it a stale add event can overwrite what IPAM wrote meanwhile: `admin_recreate_race_counter`. -/
+def EnvOK (s : State) : Op → Bool
+  | .adminReserve ip _ _ => s.pending.all (fun e => e.ip != ip)
+  | _ => true
+
+/-- states reachable by admissible moves in an environment satisfying `EnvOK` -/
 inductive Reach : State → Prop
   | init : Reach init
-  | step {s : State} (op : Op) : Reach s → op.admissible s = true → StepOK s op → Reach (step s op).1
+  | step {s : State} (op : Op) : Reach s → op.admissible s = true → EnvOK s op = true → Reach (step s op).1
 
 /-- states reachable by admissible moves, no side condition -/
 inductive ReachAny : State → Prop
@@ -107,7 +153,7 @@ def Op.isAlloc : Op → Bool
 
 /-- the moves whose `StepOK` is `True` -/
 def Op.plain : Op → Bool
-  | .deliver | .allocRanges .. => false
+  | .deliver => false
   | _ => true
 
 /-- the store looks the same (as a map) -/
